@@ -9,11 +9,25 @@ Model of evidence ingestion (property C10):
   parsers/evidence.py parse_evidence_files      left fold: NaN skipped, strictly better score wins
 
 Executable, total, Mathlib-free.  Scores are the exact rationals of the implementation's doubles;
-`none` is NaN (a row without a PEP).  The two numeric transforms (FragPipe, Sage) are a parameter
-`Transforms`; the executable instance `exactT` computes them exactly in `Rat` (IEEE `+` and the
-platform `pow` are the correctly rounded images on the generated grid — checked by the harness).
-The razor filter (`score_type.filter_proteins`, parsers/psm.py) is the identity for the non-razor
-methods, the only ones modelled here.
+a PSM score `none` is a PEP that can never enter the result (NaN, or +inf).  The two numeric
+transforms (FragPipe, Sage) are a parameter `Transforms`; the executable instance `exactT` computes
+them exactly in `Rat` (IEEE `+` and the platform `pow` are the correctly rounded images on the
+generated grid — checked by the harness).
+
+All 27 shipped methods are modelled.  Razor methods (`sharedPeptides = "razor"`, score description
+`… razor`) ingest like the others — the razor decision is taken later, in
+`collect_peptide_scores_per_protein` (property C05) — with ONE difference: `parse_mq_evidence_file`
+reads the protein cell from the column `Leading razor protein` instead of `Leading proteins`
+(`Mode.razor`, `rowProteinsOf`).  The other parsers do not look at `use_razor`.
+
+Text of the PEP cell (`Cell`): where the code converts a cell that is no float literal it raises;
+`ingestChecked` returns `badScoreCell` exactly there (`fileRaises`): Percolator / FragPipe / Sage call
+`float(row[score_col])` on every row before the mapper (empty cell included); MaxQuant converts only
+rows that survive the mapper and reads the empty cell as NaN; DIA-NN goes through pandas (empty = NaN;
+one non-numeric cell turns the whole column into text and `np.isnan` raises on the first PSM with a
+non-missing cell).  `inf` / `-inf` are float literals: a PEP of +inf never enters the result
+(`inf >= d.get(p, [inf])[0]`); a PEP of −inf would be stored, which `PepInfo.pep : Rat` cannot hold —
+`ingestChecked` refuses it as `negInfPep` (outside the model, never generated).
 -/
 import PgFdr.Model.Basic
 import PgFdr.Generated.Methods
@@ -65,17 +79,37 @@ inductive Format where
   | maxquant | percNative | percMokapot | fragpipe | sage | diann
 deriving Repr, DecidableEq, Inhabited
 
+/-- `razor`: `score_type.use_razor` (`"razor" in score_description`); the only thing it changes during
+    ingestion is the MaxQuant protein column -/
 structure Mode where
   format : Format
   remap : Bool
+  razor : Bool := false
+deriving Repr, DecidableEq, Inhabited
+
+/-- the text of the PEP cell, as far as `RawRow.score` does not say it -/
+inductive Cell where
+  /-- a float literal: `RawRow.score = some x` the finite double `x`, `none` the text `nan` -/
+  | value
+  /-- the empty cell -/
+  | empty
+  /-- non-empty text that is no float literal (`abc`, `0,01`, `1e`) -/
+  | junk
+  /-- `inf` -/
+  | posInf
+  /-- `-inf` -/
+  | negInf
 deriving Repr, DecidableEq, Inhabited
 
 /-- One data row of a result file, reduced to the cells ingestion reads.
     `pep`   MaxQuant `Modified sequence`; Percolator `peptide`; FragPipe `Peptide`; Sage `peptide`;
             DIA-NN `Modified.Sequence`
     `mod`   FragPipe `Modified Peptide` (empty elsewhere)
-    `score` the cell of the PEP column before the format's transform; `none` = NaN / empty cell
-    `prot`  protein cells: MaxQuant `[Leading proteins]`, native Percolator all remaining columns,
+    `score` the cell of the PEP column before the format's transform when it is a finite float literal;
+            `none` = the literal `nan` (or, with `cell ≠ .value`, what `cell` says)
+    `cell`  the other texts the PEP cell may hold: empty, no float literal, `inf`, `-inf`
+    `prot`  protein cells: MaxQuant `[Leading proteins, Leading razor protein]` (the second one is read
+            by razor methods only and may be absent otherwise), native Percolator all remaining columns,
             mokapot `[Proteins]`, FragPipe `[Protein, Mapped Proteins]`, Sage `[proteins]`,
             DIA-NN `[Protein.Ids]`
     `decoy` DIA-NN `Decoy == 1` -/
@@ -85,6 +119,7 @@ structure RawRow where
   score : Option Rat
   prot : List String
   decoy : Bool
+  cell : Cell := .value
 deriving Repr, DecidableEq, Inhabited
 
 /-- the numeric transforms of the PEP column: FragPipe `1 - p + 1e-16`, Sage `10 ** x` -/
@@ -138,11 +173,51 @@ def rowProteins (fmt : Format) (r : RawRow) : List String :=
     let ps := splitOn ";" (r.prot.headD "")
     if r.decoy then ps.map (fun p => "REV__" ++ p) else ps
 
+/-- the MaxQuant parser of a razor method reads `Leading razor protein` (still split on `;`); every
+    other parser ignores `use_razor` -/
+def rowProteinsOf (mode : Mode) (r : RawRow) : List String :=
+  if mode.format = .maxquant ∧ mode.razor = true then splitOn ";" (r.prot.getD 1 "")
+  else rowProteins mode.format r
+
+/-- a double or NaN: what `float()` / pandas make of a PEP cell -/
+inductive Val where
+  | nan
+  | fin (x : Rat)
+  | posInf
+  | negInf
+deriving Repr, DecidableEq, Inhabited
+
+/-- value of the PEP cell.  The empty cell is NaN for MaxQuant (`float("nan")`) and pandas; where
+    `float('')` raises (`floatRaises`) the value is never used.  Likewise for `junk`. -/
+def cellVal (r : RawRow) : Val :=
+  match r.cell with
+  | .value => match r.score with
+    | some x => .fin x
+    | none => .nan
+  | .empty => .nan
+  | .junk => .nan
+  | .posInf => .posInf
+  | .negInf => .negInf
+
+/-- FragPipe `1 - p + 1e-16`, Sage `np.power(10, x)` on the extended doubles; identity elsewhere -/
+def transform (T : Transforms) (fmt : Format) (v : Val) : Val :=
+  match fmt, v with
+  | .fragpipe, .fin p => .fin (T.fragpipe p)
+  | .fragpipe, .posInf => .negInf
+  | .fragpipe, .negInf => .posInf
+  | .sage, .fin x => .fin (T.sage x)
+  | .sage, .negInf => .fin 0
+  | _, v => v
+
+/-- the PEP as the fold sees it: `none` for NaN and for +inf — `np.isnan(score) or
+    score >= d.get(peptide, [np.inf])[0]` holds for both whatever the dict holds.  (−inf is outside
+    the model, see `rowNegInf`.) -/
+def Val.pep : Val → Option Rat
+  | .fin x => some x
+  | _ => none
+
 def rowScore (T : Transforms) (fmt : Format) (r : RawRow) : Option Rat :=
-  match fmt with
-  | .fragpipe => r.score.map T.fragpipe
-  | .sage => r.score.map T.sage
-  | _ => r.score
+  (transform T fmt (cellVal r)).pep
 
 /-! ## the mapper of parsers/psm.py -/
 
@@ -177,7 +252,7 @@ def Psm.key (x : Psm) : String := removeMods x.modPep
 /-- one row through row function and mapper; rows whose mapped protein list is `None` or empty are
     dropped (`if not proteins: continue`) -/
 def rowPsm (T : Transforms) (mode : Mode) (m : DMap) (flank : Bool) (r : RawRow) : Option Psm :=
-  match mapProteins mode.remap m (rowPeptide mode.format flank r) (rowProteins mode.format r) with
+  match mapProteins mode.remap m (rowPeptide mode.format flank r) (rowProteinsOf mode r) with
   | none => none
   | some ps =>
     if ps.isEmpty then none
@@ -232,17 +307,89 @@ def ingestFiles (T : Transforms) (mode : Mode) (maps : List DMap) (files : List 
     List PepInfo :=
   ingestPairs T mode (pairUp mode.remap maps files)
 
+/-! ## cells the parsers refuse -/
+
+inductive IngestErr where
+  /-- the parser raises while converting a PEP cell: `ValueError: could not convert string to float`
+      (csv formats), `TypeError` of `np.isnan` on a text column (DIA-NN through pandas) -/
+  | badScoreCell
+  /-- a PSM with PEP −inf: the code stores it, `PepInfo.pep : Rat` cannot — outside the model -/
+  | negInfPep
+deriving Repr, DecidableEq, Inhabited
+
+/-- `float(cell)` of the format's parser raises: no float literal; the empty cell except where the
+    parser reads it as NaN (`maxquant.py`: `float(x) if len(x) > 0 else float("nan")`; pandas) -/
+def floatRaises (fmt : Format) (c : Cell) : Bool :=
+  match c with
+  | .junk => true
+  | .empty =>
+    match fmt with
+    | .maxquant => false
+    | .diann => false
+    | _ => true
+  | _ => false
+
+/-- pandas reads the cell as a missing value (`''`, `nan`) -/
+def isMissing (r : RawRow) : Bool :=
+  match r.cell with
+  | .empty => true
+  | .value => r.score.isNone
+  | _ => false
+
+/-- the row makes its parser raise.  Percolator, FragPipe and Sage convert the cell of EVERY row
+    before the mapper is asked; MaxQuant converts it after `if not proteins: continue`, i.e. only for
+    rows that yield a PSM.  (DIA-NN: decided per file, `fileRaises`.) -/
+def rowRaises (T : Transforms) (mode : Mode) (m : DMap) (flank : Bool) (r : RawRow) : Bool :=
+  match mode.format with
+  | .maxquant => floatRaises .maxquant r.cell && (rowPsm T mode m flank r).isSome
+  | .diann => false
+  | f => floatRaises f r.cell
+
+/-- reading the file raises.  DIA-NN: one non-numeric cell makes pandas deliver the whole PEP column
+    as text (missing cells stay NaN), and `np.isnan` in `parse_evidence_files` raises on the first
+    yielded PSM whose cell is not missing. -/
+def fileRaises (T : Transforms) (mode : Mode) (m : DMap) (rows : List RawRow) : Bool :=
+  match mode.format with
+  | .diann =>
+    rows.any (fun r => r.cell = .junk) &&
+      rows.any (fun r => (rowPsm T mode m false r).isSome && !isMissing r)
+  | _ => rows.any (rowRaises T mode m (flankOf mode.format rows))
+
+/-- the row yields a PSM whose PEP is −inf -/
+def rowNegInf (T : Transforms) (mode : Mode) (m : DMap) (flank : Bool) (r : RawRow) : Bool :=
+  (rowPsm T mode m flank r).isSome && transform T mode.format (cellVal r) = .negInf
+
+/-- `parse_evidence_files` with its refusals: `badScoreCell` exactly when reading some paired file
+    raises; otherwise the peptide list of `ingestPairs` -/
+def ingestChecked (T : Transforms) (mode : Mode) (pairs : List (DMap × List RawRow)) :
+    Except IngestErr (List PepInfo) :=
+  if pairs.any (fun p => fileRaises T mode p.1 p.2) then .error .badScoreCell
+  else if pairs.any (fun p => p.2.any (rowNegInf T mode p.1 (flankOf mode.format p.2))) then
+    .error .negInfPep
+  else .ok (ingestPairs T mode pairs)
+
+/-- `parsers.evidence.parse_evidence_files`, refusals included (what the driver op `ingest` runs) -/
+def ingestFilesChecked (T : Transforms) (mode : Mode) (maps : List DMap) (files : List (List RawRow)) :
+    Except IngestErr (List PepInfo) :=
+  ingestChecked T mode (pairUp mode.remap maps files)
+
 /-! ## which mode a shipped method selects (scoring_strategy.ProteinScoringStrategy.__init__) -/
 
-/-- score origin from the score description; `mokapot` = the file carries a `SpecId` header
-    instead of `PSMId` (decided by `percolator.get_percolator_column_idxs`) -/
+/-- score origin and `use_razor` from the score description; `mokapot` = the file carries a `SpecId`
+    header instead of `PSMId` (decided by `percolator.get_percolator_column_idxs`) -/
 def modeOfScoreType (d : String) (mokapot : Bool) : Mode :=
+  let razor := strContains d "razor"
   if strContains d "Perc" then
-    { format := if mokapot then .percMokapot else .percNative, remap := strContains d "remap" }
-  else if strContains d "FragPipe" then { format := .fragpipe, remap := false }
-  else if strContains d "Sage" then { format := .sage, remap := false }
-  else if strContains d "DIA-NN" then { format := .diann, remap := false }
-  else { format := .maxquant, remap := !strContains d "no_remap" }
+    { format := if mokapot then .percMokapot else .percNative, remap := strContains d "remap", razor := razor }
+  else if strContains d "FragPipe" then { format := .fragpipe, remap := false, razor := razor }
+  else if strContains d "Sage" then { format := .sage, remap := false, razor := razor }
+  else if strContains d "DIA-NN" then { format := .diann, remap := false, razor := razor }
+  else { format := .maxquant, remap := !strContains d "no_remap", razor := razor }
+
+/-- `methods.parse_method_toml`: `score_type = toml["scoreType"]`, `+= " razor"` when
+    `toml["sharedPeptides"] == "razor"` — the description `ProteinScoringStrategy` is built from -/
+def descriptionOf (m : PgFdr.Generated.MethodToml) : String :=
+  m.scoreType.getD "" ++ (if m.sharedPeptides = some "razor" then " razor" else "")
 
 /-- score description of a shipped method (`methods.parse_method_toml`); `none` for an unknown name
     or a method without `scoreType` -/
@@ -255,6 +402,13 @@ def isRazorMethod (name : String) : Bool :=
   match PgFdr.Generated.methods.find? (fun m => m.name = name) with
   | some m => m.sharedPeptides = some "razor"
   | none => false
+
+/-- score description of a shipped method as `ProteinScoringStrategy` receives it; `none` for an
+    unknown name or a method without `scoreType` -/
+def descriptionOfMethod (name : String) : Option String :=
+  match PgFdr.Generated.methods.find? (fun m => m.name = name) with
+  | some m => m.scoreType.map (fun _ => descriptionOf m)
+  | none => none
 
 /-! ## vocabulary of the property statements (Props/C10.lean) -/
 
